@@ -251,6 +251,20 @@ def spec_accepts(spec_line, impl_line):
     return all(a == "*" or a == b for a, b in zip(st, it))
 
 
+def match_line(pattern, line):
+    """token-wise equality; a `*` inside a pattern token matches any suffix of that token"""
+    pt, lt = pattern.split(), line.split()
+    if len(pt) != len(lt):
+        return False
+    for a, b in zip(pt, lt):
+        if a == b or a == "*":
+            continue
+        if a.endswith("*") and b.startswith(a[:-1]):
+            continue
+        return False
+    return True
+
+
 def judge(r):
     """returns (corr_ok, oracle_ok, first_bad_op_index)"""
     c = r["case"]
@@ -259,7 +273,7 @@ def judge(r):
         i = r["impl"][k] if k < len(r["impl"]) else "<missing>"
         m = r["model"][k] if k < len(r["model"]) else "<missing>"
         s = r["spec"][k] if k < len(r["spec"]) else "-"
-        if i != m and corr_ok:
+        if i != m and not match_line(m, i) and corr_ok:
             corr_ok = False
             bad = k if bad is None else bad
         if c.oracle and not spec_accepts(s, i) and oracle_ok:
